@@ -79,28 +79,35 @@ Pre13 == {Seg("a\nb\n", 2), Seg("text ", 0), Seg("{{ \"x\ny\" }}", 1), Seg("{{--
           Seg("{{ 'p\n\nq' }}\n", 3), Seg("\\{{ x\n", 1), Seg("@if(false)\nA\n@elseif(true)\nB\n@else\nC\n@end", 6),
           Seg("$e$$u$\n", 1), Seg("{{ [1,\n2] }}", 1), Seg("\n\n\n", 3)}
 \* single-line faults; rt = raised at run time (must be reached), otherwise at parse time
-Faults13 == {[s |-> "{{ zz }}", rt |-> TRUE, k |-> "undefined-identifier"],
-             [s |-> "{{ 1 + \"a\" }}", rt |-> TRUE, k |-> "mistyped-operand"],
-             [s |-> "{{ \"s\".nope() }}", rt |-> TRUE, k |-> "unknown-function"],
-             [s |-> "{{ ob.nope }}", rt |-> TRUE, k |-> "unknown-property"],
-             [s |-> "{{ 1 / 0 }}", rt |-> TRUE, k |-> "division-by-zero"],
-             [s |-> "{{ 7 % 0 }}", rt |-> TRUE, k |-> "modulo-by-zero"],
-             [s |-> "{{ 1 ~ 2 }}", rt |-> FALSE, k |-> "illegal-character"],
-             [s |-> "{{ 1 + }}", rt |-> FALSE, k |-> "unexpected-token"],
-             [s |-> "{{ }}", rt |-> FALSE, k |-> "empty-braces"],
-             [s |-> "{{ x = }}", rt |-> FALSE, k |-> "unexpected-token"],
-             [s |-> "@each(x on ob)", rt |-> FALSE, k |-> "unexpected-token"],
-             [s |-> "{{ n = 1; n = \"s\" }}", rt |-> TRUE, k |-> "type-change"],
-             [s |-> "@each(e in 5)x@end", rt |-> TRUE, k |-> "non-array"]}
+Faults13 == {[s |-> "{{ zz }}", rt |-> TRUE, k |-> "undefined-identifier", dl |-> 0],
+             [s |-> "{{ 1 + \"a\" }}", rt |-> TRUE, k |-> "mistyped-operand", dl |-> 0],
+             [s |-> "{{ \"s\".nope() }}", rt |-> TRUE, k |-> "unknown-function", dl |-> 0],
+             [s |-> "{{ ob.nope }}", rt |-> TRUE, k |-> "unknown-property", dl |-> 0],
+             [s |-> "{{ 1 / 0 }}", rt |-> TRUE, k |-> "division-by-zero", dl |-> 0],
+             [s |-> "{{ 7 % 0 }}", rt |-> TRUE, k |-> "modulo-by-zero", dl |-> 0],
+             [s |-> "{{ 1 ~ 2 }}", rt |-> FALSE, k |-> "illegal-character", dl |-> 0],
+             [s |-> "{{ 1 + }}", rt |-> FALSE, k |-> "unexpected-token", dl |-> 0],
+             [s |-> "{{ }}", rt |-> FALSE, k |-> "empty-braces", dl |-> 0],
+             [s |-> "{{ x = }}", rt |-> FALSE, k |-> "unexpected-token", dl |-> 0],
+             [s |-> "@each(x on ob)", rt |-> FALSE, k |-> "unexpected-token", dl |-> 0],
+             [s |-> "{{ n = 1; n = \"s\" }}", rt |-> TRUE, k |-> "type-change", dl |-> 0],
+             [s |-> "@each(e in 5)x@end", rt |-> TRUE, k |-> "non-array", dl |-> 0],
+             \* the unexpected token itself sits on a later line than the construct's start: the reported line is the line
+             \* on which THAT token ends (dl = its distance from the first line of the fault)
+             [s |-> "{{ [1, 2\n\n}}", rt |-> FALSE, k |-> "unexpected-token", dl |-> 2],
+             [s |-> "{{ (1\n}}", rt |-> FALSE, k |-> "unexpected-token", dl |-> 1],
+             [s |-> "@each(x\n\non ob)", rt |-> FALSE, k |-> "unexpected-token", dl |-> 2],
+             [s |-> "{{ 1 +\n\n\n}}", rt |-> FALSE, k |-> "unexpected-token", dl |-> 3],
+             [s |-> "{{ ob\n.\nnope }}", rt |-> TRUE, k |-> "unknown-property", dl |-> 1]}
 Sum(ss) == LET RECURSIVE S(_) S(x) == IF x = <<>> THEN 0 ELSE x[1].nl + S(Tail(x)) IN S(ss)
 Texts(ss) == LET RECURSIVE S(_) S(x) == IF x = <<>> THEN "" ELSE x[1].s \o S(Tail(x)) IN S(ss)
 \* placement contexts: [src, line]
 Place13(pre, f, post) ==
-  {[src |-> Texts(pre) \o f.s \o Texts(post), line |-> 1 + Sum(pre), c |-> "top"],
-   [src |-> Texts(pre) \o "@if(true)\n" \o f.s \o "\n@end" \o Texts(post), line |-> 2 + Sum(pre), c |-> "in-if"],
-   [src |-> "@each(w in [1,2])\n" \o Texts(pre) \o f.s \o "@end", line |-> 2 + Sum(pre), c |-> "in-each"],
-   [src |-> Texts(pre) \o "@if(false)\nA\n@else\n\n" \o f.s \o "@end", line |-> 5 + Sum(pre), c |-> "in-else"],
-   [src |-> Texts(pre) \o "@for(i = 0; i < 1; i++)" \o Texts(post) \o f.s \o "\n@end", line |-> 1 + Sum(pre) + Sum(post), c |-> "in-for"]}
+  {[src |-> Texts(pre) \o f.s \o Texts(post), line |-> 1 + Sum(pre) + f.dl, c |-> "top"],
+   [src |-> Texts(pre) \o "@if(true)\n" \o f.s \o "\n@end" \o Texts(post), line |-> 2 + Sum(pre) + f.dl, c |-> "in-if"],
+   [src |-> "@each(w in [1,2])\n" \o Texts(pre) \o f.s \o "@end", line |-> 2 + Sum(pre) + f.dl, c |-> "in-each"],
+   [src |-> Texts(pre) \o "@if(false)\nA\n@else\n\n" \o f.s \o "@end", line |-> 5 + Sum(pre) + f.dl, c |-> "in-else"],
+   [src |-> Texts(pre) \o "@for(i = 0; i < 1; i++)" \o Texts(post) \o f.s \o "\n@end", line |-> 1 + Sum(pre) + Sum(post) + f.dl, c |-> "in-for"]}
 Cases13(n) == UNION {Place13(pre, f, post) : pre \in SeqsUpTo(Pre13, n), f \in Faults13, post \in {<<>>, <<Seg("a\nb\n", 2)>>}}
 
 Data13 == <<[k |-> "ob", v |-> [t |-> "obj", v |-> <<[k |-> "k", v |-> [t |-> "int", b |-> "z", o |-> 1]]>>]]>>
